@@ -224,7 +224,9 @@ theorem sliceIndexes_list (e : Ty) (vs : List Payload) (a b : Num) :
             else if s > t then .err "start index must not be greater than end index"
             else .ok ⟨s, t, true⟩ := by
   have hk : ∀ x, (numVal x).isKnown = true := fun _ => rfl
-  simp only [sliceIndexes, Value.unmark, Payload.unmark1, isTupleTy, Bool.false_eq_true, if_false,
+  have hlk : (⟨.list e, .seq vs⟩ : Value).isKnown = true := rfl
+  simp only [sliceIndexes, Value.unmark, Payload.unmark1, isTupleTy, Bool.false_eq_true, if_false, hlk,
+    Bool.not_true,
     length_list_known, intVal_isKnown, if_true, lengthInt_list, Res.map, hk, fromCtyInt_num, fromNumInt_64]
   cases ha : Gocty.int64Exact a with
   | none => rfl
